@@ -160,6 +160,16 @@ def one_case(ctx, index, rng: random.Random):
     except Exception as e:
         rec.monitor_error("C08.make", e)
         return
+    if not hasattr(obj, "histograms") and rng.random() < 0.08:
+        # a histogram class of the user's own, defined now (i.e. after earlier documents were read in this process)
+        try:
+            with attach.quiet():
+                sub = type(f"User{type(obj).__name__}P{os.getpid()}I{index}", (type(obj),), {"__module__": __name__})
+                obj = sub.from_dict(obj.to_dict())
+            kind = kind + "/user_subclass"
+        except Exception as e:
+            rec.monitor_error("C08.make_subclass", e)
+            return
     how = rng.choice(["to_json", "save_json", "file", "indent"])
     try:
         if how == "to_json":
